@@ -64,6 +64,10 @@ def cases(tier, rng):
                 if d >= 2:
                     vals.append(value(d, [F(3, 10) * 0 + F(3, 8), F(1, 2)] + [F(0)] * (d - 2)))   # |v| = 5/8
                     vals.append(value(d, [F(3, 16), F(1, 4)] + [F(0)] * (d - 2)))                  # |v| = 5/16
+                    if act != 0:
+                        # a diagonal value: no single component reaches the threshold, the magnitude does (|v|^2 = 9/8 t^2)
+                        vals.append(value(d, [abs(act) * F(3, 4), -abs(act) * F(3, 4)] + [F(0)] * (d - 2)))
+                        vals.append(value(d, [F(0)] * (d - 2) + [abs(act) * F(3, 4), abs(act) * F(3, 4)]))
                 rng.shuffle(vals)
                 steps = ' '.join(step(v, T / 2) for v in vals)
                 yield ('(ucond %s [%s])' % (c, steps), 'threshold')
